@@ -20,6 +20,8 @@ SIGMA12 = ['a', '.', '(', ')', '=', '\n', 'def ', ':', 'import ', ',', '[', "'",
 # trailing-dot / whitespace / comment structure (found by a seeding sub-agent on the unchanged
 # tree: `foo.  x` with the cursor in the blanks raised AttributeError - needs 4 tokens)
 SIGMA6 = ['a', '.', ' ', '\n', '(', '#']
+# statement separators inside broken statements (error nodes spanning `;`)
+SIGMA_SEMI = ['a', ';', ')', '(', 'import ', '.', 'def ', '\n']
 INSERT8 = ['(', ')', '.', ',', ':', "'", '\n', 'a']
 
 
@@ -56,6 +58,8 @@ SNIPPETS = {
     'unicode': 'größe = 1\nnaïve = größe\nnaï\ngrö\n',
     'getattr-proxy': 'class Proxy:\n    def __init__(self, t):\n        self._t = t\n    def __getattr__(self, name):\n        if name.startswith("_"):\n            return\n        return getattr(self._t, name)\np = Proxy([])\np.app\np._x.\n',
     'unclosed-calls': 'def foo(a, b=1):\n    pass\nfoo(\nx = foo(1, \nif x:\n    y = [foo(a=3\n',
+    'compiled-nostub': 'from _functools import reduce\nreduce\nimport _functools\nclass A: pass\nx = _functools if c else A\nx\nx()\n',
+    'semicolon-error': 'import os\nfoo(os.path); )\nif os: foo(os); else\nbar(os); import os.\n',
     'unterminated': 'def f(:\n    return (1,\nclass\n  x = [\nf(\n',
 }
 # characters that str.splitlines() treats as line boundaries but Python/parso do not (found
@@ -173,6 +177,8 @@ def _run_text(task):
         os.makedirs(root, exist_ok=True)
         project = jedi.Project(root, smart_sys_path=False)
         path = os.path.join(root, 'b', 'w%d_%s.py' % (os.getpid(), re.sub(r'\W', '_', tid)[:60]))
+        if task.get('nopath'):
+            path = None         # an unsaved buffer: names of the buffer have no module path
     fails = []
     shapes = set()
     evals = 0
@@ -281,6 +287,10 @@ def _families(tier):
                                                      for n, t in quick_files if len(t) < 420]))
         fams.append(('statement-kind snippets(all positions)',
                      [dict(id='snip:' + k, code=v) for k, v in sorted(SNIPPETS.items())]))
+        fams.append(('statement-kind snippets as unsaved buffers, path=None (all positions)',
+                     [dict(id='nopath:' + k, code=v, nopath=True) for k, v in sorted(SNIPPETS.items())]))
+        fams.append(('soups<=3/S8;', [dict(id='s' + i, code=c) for i, c in _soups(SIGMA_SEMI, 3)
+                                      if ';' in c]))
         fams.append(('buffers inside an on-disk project x project options(all positions)',
                      [dict(id='proj:%s:%s:%d' % (kind, rel, k), code=c, proj=kind, relpath=rel)
                       for kind in ('plain', 'nosmart', 'explicit')
@@ -325,6 +335,10 @@ def _families(tier):
             for j in range(1, len(v)):
                 snip.append(dict(id='snip:%s:pre%d' % (k, j), code=v[:j], mode='end'))
         fams.append(('statement-kind snippets(all positions + every typing prefix)', snip))
+        fams.append(('statement-kind snippets as unsaved buffers, path=None (all positions)',
+                     [dict(id='nopath:' + k, code=v, nopath=True) for k, v in sorted(SNIPPETS.items())]))
+        fams.append(('soups<=4/S8;', [dict(id='s' + i, code=c) for i, c in _soups(SIGMA_SEMI, 4)
+                                      if ';' in c]))
         fams.append(('line-separator characters(all positions)',
                      [dict(id='sep:%d:%d' % (a, b), code=t % sp)
                       for a, sp in enumerate(SEPARATORS) for b, t in enumerate(SEP_TEMPLATES)]))
